@@ -1,13 +1,15 @@
 (** C04 — Timeouts are sound: never both received and timed out, never early.
-    End to end for IBC v1 (MsgTimeout, ORDERED and UNORDERED channels): [C04_end_to_end] below, an invariant of
-    the two-chain world with honest Tendermint-like clients (header h carries the time of block h and the state
-    after block h-1; heights of a chain increase, its times never decrease).
-    Partial for IBC v2 and MsgTimeoutOnClose: the per-chain halves ([C04_timeout2_guards],
-    [C04_no_receive_after_elapsed], [C04_receipts_persist], [C04_honest_nonmembership]) are proved; their
-    two-chain composition is exercised by the `core` correspondence family and its cross-chain monitor only. *)
+    End to end for IBC v1 (MsgTimeout, ORDERED and UNORDERED channels) and IBC v2 (MsgTimeout):
+    [C04_end_to_end] and [C04_end_to_end_v2] below, invariants of the two-chain world with honest Tendermint-like
+    clients (header h carries the time of block h and the state after block h-1; heights of a chain increase,
+    its times never decrease).
+    Partial for MsgTimeoutOnClose: the per-chain halves ([C04_timeout1_guards] covers its packet guards,
+    [C04_no_receive_after_elapsed], [C04_receipts_persist], [C04_honest_nonmembership]) are proved; the
+    two-chain composition for a closed channel is exercised by the `core` correspondence family and its
+    cross-chain monitor only. *)
 From IBC Require Import Core.ChainExamples.
 From IBC Require Import Lib.Bytes Core.Height Core.HeightFacts Core.Chain Core.World Core.WorldFacts Core.ChainFacts Core.ChainInv Core.ChainThms
-  Core.WorldInv Core.WorldInv2 Core.WorldInv3 Core.WorldThm.
+  Core.WorldInv Core.WorldInv2 Core.WorldInv3 Core.WorldThm Core.WorldV2.
 Local Open Scope N_scope.
 
 (** source side, v1: a timeout is processed only if the consensus state at the proof height exists, the
@@ -127,6 +129,48 @@ Example C04_end_to_end_nonvacuous :
   WI (mkIW exw ghost0 ghost0) /\ good_steps (mkIW exw ghost0 ghost0) exw_steps /\
   map t_src (g_tlog (ga (irun (mkIW exw ghost0 ghost0) exw_steps))) = [(1, 10, 1)].
 Proof. exact (conj exw_wi (conj exw_good (proj1 exw_timeout_accepted))). Qed.
+
+(** *** end to end (IBC v2).  [irun2] additionally logs the accepted v2 MsgRecvPacket ([h_rlog]: destination key
+    (client, sequence), source key, commitment, block height and time, base light client) and v2 MsgTimeout
+    ([h_tlog]) messages, on clients and on channel aliases alike; [WI2] extends [WI].  An accepted v2 MsgTimeout on
+    one chain and an accepted v2 MsgRecvPacket of the packet with the same source and destination keys on the other
+    chain never both occur, whichever comes first, over remote (non-loopback) clients. *)
+Theorem C04_end_to_end_v2 x l :
+  WI2 x -> good_steps2 x l ->
+  let y := irun2 x l in
+  (forall e r, In e (h_tlog (ha y)) -> In r (h_rlog (hb y)) ->
+     t2_client e <> w_lh (iw (iw1 y)) -> r2_client r <> w_lh (iw (iw1 y)) -> t2_dst e = r2_dst r -> t2_src e = r2_src r -> False) /\
+  (forall e r, In e (h_tlog (hb y)) -> In r (h_rlog (ha y)) ->
+     t2_client e <> w_lh (iw (iw1 y)) -> r2_client r <> w_lh (iw (iw1 y)) -> t2_dst e = r2_dst r -> t2_src e = r2_src r -> False).
+Proof. exact (timeout2_excludes_receive x l). Qed.
+Print Assumptions C04_end_to_end_v2.
+
+Theorem C04_invariant_initially_v2 w :
+  base_chain (wa w) -> base_chain (wb w) -> base_clients (wa w) (wb w) -> base_clients (wb w) (wa w) ->
+  WI2 (mkIW2 (mkIW w ghost0 ghost0) ghost20 ghost20).
+Proof. exact (wi2_base w). Qed.
+Print Assumptions C04_invariant_initially_v2.
+
+Theorem C04_ghosts_do_not_influence_v2 x l : iw1 (irun2 x l) = irun (iw1 x) l.
+Proof. exact (irun2_iw1 x l). Qed.
+Print Assumptions C04_ghosts_do_not_influence_v2.
+
+Theorem C04_logs_record_accepted_messages_v2 g pre o h t out :
+  (forall r, In r (h_rlog (gupd2 g pre o h t out)) -> In r (h_rlog g) \/
+     exists q ph rl, out = Ok /\ packet_of o = Some (ORecv2 q ph rl) /\
+       r = mkR2 (q_dst q, q_seq q) (q_src q, q_seq q) (commit2 q) (ht h) t (base_client pre (q_dst q))) /\
+  (forall e, In e (h_tlog (gupd2 g pre o h t out)) -> In e (h_tlog g) \/
+     exists q ph rl, out = Ok /\ packet_of o = Some (OTimeout2 q ph rl) /\
+       e = mkT2 (q_src q, q_seq q) (q_dst q, q_seq q) (commit2 q) ph (base_client pre (q_src q))).
+Proof. exact (conj (gupd2_rlog g pre o h t out) (gupd2_tlog g pre o h t out)). Qed.
+Print Assumptions C04_logs_record_accepted_messages_v2.
+
+(** non-vacuity (v2): send with a timeout of 1 s on client 9, the destination reaches 2 s, client update, v2
+    MsgTimeout with an honest absence proof: accepted and logged *)
+Example C04_end_to_end_v2_nonvacuous :
+  WI2 (mkIW2 (mkIW exv ghost0 ghost0) ghost20 ghost20) /\ good_steps2 (mkIW2 (mkIW exv ghost0 ghost0) ghost20 ghost20) exv_steps /\
+  map t2_src (h_tlog (ha (irun2 (mkIW2 (mkIW exv ghost0 ghost0) ghost20 ghost20) exv_steps))) = [(9, 1)].
+Proof. exact (conj exv_wi (conj exv_good exv_timeout_accepted)). Qed.
 
 (** non-vacuity: a concrete state satisfies the invariant and a concrete 13-step history (duplicates, a failing
     application, an ORDERED timeout, multi-payload v2 receives) produces exactly the expected callbacks *)
